@@ -103,3 +103,119 @@ let () =
           | Some t -> Printf.sprintf "bad:%d:%s:no-event-of-the-model:%s" (List.length evs) t (c13_state_descr s)
           | None -> "ok:" ^ hex_of_bytes s.slog ^ ":" ^ hex_of_bytes s.clog ^ ":" ^ hex_of_bytes s.blog))
     | _ -> "?args")
+
+(* ---- the reset guard: schedule search on the model ------------------------------------------
+   relay_search <ug> <tmux> <client chunks> <server chunks> <turns> : the chunks are over the
+   abstract alphabet of Relay.rg_next, <turns> is a canonical (causal) schedule at the level of
+   loop iterations: I / O = the input / output reader takes its next chunk and runs until it
+   is back at the head of its loop (or blocked), H = the worker runs until it is blocked or
+   done, T = the deferred unlock.  The search examines every schedule obtained by cutting ONE
+   turn after k >= 1 steps and resuming that thread after a later turn (before its own next
+   turn), i.e. every way of delaying one thread in front of one of its operations, and looks
+   for a state with conservation broken or bytes parked outside a handshake (Relay.rg_bad).
+   <ug> = 0 guarded reset, 1 reset from any state, gen = what the current source has
+   (Relay.rg_current, from the regenerated skeleton).
+   relay_search prints "none" or "bad:<number of bad schedules>:<first witness>";
+   relay_search_list prints "examined=<n>;bad=<m>" followed by up to <max> witnesses
+   "|<i>.<k>.<j>;<kind>;<labels up to the end of the resumed turn>" (one per cut point). *)
+let c13_rd_str = function RdMore -> "m" | RdOk -> "o" | RdErr -> "e"
+let c13_label_str (l : label) : string =
+  let b x = if x then "1" else "0" in
+  match l with
+  | LInRead -> "IR" | LInLoad -> "IL" | LInLock -> "IK" | LInReload -> "IV" | LInAdd -> "IA"
+  | LInUnlockP -> "IP" | LInUnlockU -> "IU" | LInSend -> "IS" | LInEnd c -> "IE:" ^ b c
+  | LOutRead -> "OR" | LOutLoad -> "OL" | LOutLock -> "OK" | LOutReload -> "OV" | LOutAdd -> "OA"
+  | LOutUnlockP -> "OP" | LOutUnlockU -> "OU" | LOutBypass -> "OB"
+  | LOutDetect (c, t) -> "OD:" ^ hex_of_bytes c ^ ":" ^ b t
+  | LOutStoreH -> "OH" | LOutGo -> "OG" | LOutSend -> "OS" | LOutEnd c -> "OE:" ^ b c
+  | LHsAct (n, r) -> "HA:" ^ string_of_int (int_of_nat n) ^ ":" ^ c13_rd_str r
+  | LHsSendAct (l, c) -> "HSA:" ^ hex_of_bytes l ^ ":" ^ b c
+  | LHsCfg (n, r) -> "HC:" ^ string_of_int (int_of_nat n) ^ ":" ^ c13_rd_str r
+  | LHsSendCfg l -> "HSC:" ^ hex_of_bytes l
+  | LHsFail1 l -> "HF1:" ^ hex_of_bytes l | LHsFail2 l -> "HF2:" ^ hex_of_bytes l
+  | LHsLock -> "HK" | LHsPopI -> "HPI" | LHsSendI -> "HSI" | LHsPopO -> "HPO" | LHsSendO -> "HSO"
+  | LHsDone -> "HD" | LTlUnlock -> "TU"
+
+let c13_thread = function 'I' -> RgIn | 'O' -> RgOut | 'H' -> RgHs | 'T' -> RgTl | _ -> failwith "thread"
+
+type c13_exec = { mutable ms : rg_mem * state; mutable labs : label list; mutable nsteps : int;
+                  mutable bad : (int * string) option }
+
+let c13_search ug tm cs ss (turns : string) =
+  let ci = List.concat cs and si = List.concat ss in
+  let n = String.length turns in
+  let fresh () = { ms = (rg_mem0, init cs ss); labs = []; nsteps = 0; bad = None } in
+  (* run thread th for at most limit steps or until it is back at its loop head / not enabled;
+     returns the number of steps taken *)
+  let turn (e : c13_exec) th limit =
+    let k = ref 0 and go = ref true in
+    while !go && !k < limit do
+      (match rg_move ug tm th e.ms with
+       | None -> go := false
+       | Some (l, ms') ->
+         e.ms <- ms'; e.labs <- l :: e.labs; e.nsteps <- e.nsteps + 1; incr k;
+         if e.bad = None && rg_bad ci si (snd ms') then
+           e.bad <- Some (e.nsteps, if rg_stranded (snd ms') then "stranded" else "conservation");
+         if rg_at_head th (snd ms') then go := false)
+    done; !k in
+  (* canonical run: the length of every turn *)
+  let canon = fresh () in
+  let lens = Array.init n (fun t -> turn canon (c13_thread turns.[t]) 1000) in
+  let examined = ref 0 and found = ref [] and nbad = ref 0 in
+  if canon.bad <> None then begin incr nbad; found := ["-1.0.0;canonical;" ^ String.concat " " (List.rev_map c13_label_str canon.labs)] end;
+  for i = 0 to n - 1 do
+    let x = turns.[i] in
+    for k = 1 to lens.(i) - 1 do
+      let first = ref true in
+      let j = ref (i + 1) in
+      while !j < n && turns.[!j] <> x do
+        incr examined;
+        let e = fresh () in
+        let cut = ref 0 in
+        for t = 0 to n - 1 do
+          if t = i then ignore (turn e (c13_thread x) k) else ignore (turn e (c13_thread turns.[t]) 1000);
+          if t = !j then begin ignore (turn e (c13_thread x) 1000); cut := e.nsteps end
+        done;
+        (match e.bad with
+         | Some (at, kind) ->
+           incr nbad;
+           if !first then begin
+             first := false;
+             let labs = List.rev e.labs in
+             let upto = (ignore at; !cut) in
+             let pre = List.filteri (fun idx _ -> idx < upto) labs in
+             found := (Printf.sprintf "%d.%d.%d;%s;%s" i k !j kind (String.concat " " (List.map c13_label_str pre))) :: !found
+           end
+         | None -> ());
+        incr j
+      done
+    done
+  done;
+  (!examined, !nbad, List.rev !found, List.rev_map c13_label_str canon.labs)
+
+let c13_ug = function "0" -> false | "1" -> true | "gen" -> rg_current | _ -> failwith "ug"
+
+let () =
+  register "relay_search" (function [ug; tm; cs; ss; turns] ->
+      let (_, nbad, found, _) = c13_search (c13_ug ug) (bool_of tm) (chunks_of cs) (chunks_of ss) turns in
+      (match found with [] -> "none" | w :: _ -> Printf.sprintf "bad:%d:%s" nbad w)
+    | _ -> "?args");
+  register "relay_search_list" (function [ug; tm; cs; ss; turns; mx] ->
+      let (ex, nbad, found, _) = c13_search (c13_ug ug) (bool_of tm) (chunks_of cs) (chunks_of ss) turns in
+      let rec take k = function [] -> [] | x :: r -> if k = 0 then [] else x :: take (k - 1) r in
+      String.concat "|" (Printf.sprintf "examined=%d;bad=%d" ex nbad :: take (int_of_string mx) found)
+    | _ -> "?args");
+  (* relay_canon: the label sequence of the canonical schedule itself *)
+  register "relay_canon" (function [ug; tm; cs; ss; turns] ->
+      let (_, _, _, canon) = c13_search (c13_ug ug) (bool_of tm) (chunks_of cs) (chunks_of ss) turns in
+      String.concat " " canon
+    | _ -> "?args");
+  (* relay_guard_run <ug> <tmux> <client chunks> <server chunks> <labels>: a label sequence on
+     rg_run; prints "none" (not a path), "ok" or the kind of violation of the final state *)
+  register "relay_guard_run" (function [ug; tm; cs; ss; ls] ->
+      let cs = chunks_of cs and ss = chunks_of ss in
+      let labels = List.map c13_label (split_on ' ' ls) in
+      (match rg_run (c13_ug ug) (bool_of tm) labels (init cs ss) with
+       | None -> "none"
+       | Some s -> if rg_stranded s then "stranded" else if rg_bad (List.concat cs) (List.concat ss) s then "conservation" else "ok")
+    | _ -> "?args")
